@@ -25,8 +25,29 @@ def chebyshev_callable(X, y):
     return np.abs(X.astype(np.float64) - y.astype(np.float64)).max(axis=1)
 
 
-def metric_arg(name):
-    return chebyshev_callable if name == 'chebyshev' else name
+_BUF = {}
+
+
+def chebyshev_callable_buf(X, y):
+    """The same metric written the allocation-free way: every call returns
+    a view of one reused output buffer (like libdist's own out=).  Whoever
+    keeps a returned array across the next call sees it overwritten."""
+    n = len(X)
+    buf = _BUF.get('b')
+    if buf is None or len(buf) < n:
+        buf = _BUF['b'] = np.empty(max(n, 64))
+    out = buf[:n]
+    np.max(np.abs(X.astype(np.float64) - y.astype(np.float64)), axis=1,
+           out=out)
+    return out
+
+
+def metric_arg(name, rng=None):
+    if name != 'chebyshev':
+        return name
+    if rng is not None and rng.random() < 0.3:
+        return chebyshev_callable_buf
+    return chebyshev_callable
 
 
 def gen_data(rng, nmax=60, dmax=6, nmin=2, dtype=None, geom=None):
@@ -58,6 +79,10 @@ def gen_data(rng, nmax=60, dmax=6, nmin=2, dtype=None, geom=None):
         X = np.round(X * (1 if geom == 'lattice' else 5))
     elif rng.random() < 0.2:
         X = X * float(10.0 ** int(rng.integers(-6, 7)))   # tiny / huge units
+    elif rng.random() < 0.06:
+        # far outside ordinary magnitudes (still nowhere near under/overflow):
+        # nothing in the algorithms may carry an absolute threshold
+        X = X * float(10.0 ** [-20, -18, -12, 12, 18][int(rng.integers(0, 5))])
     X = X.astype(dtype)
     # distinct points
     _, first = np.unique(X, axis=0, return_index=True)
@@ -81,6 +106,14 @@ def gen_data(rng, nmax=60, dmax=6, nmin=2, dtype=None, geom=None):
 
 def tol_for(X):
     return 2e-5 if X.dtype == np.float32 else 1e-9
+
+
+def unit(X):
+    """Magnitude of the data when it is far from 1 (the metrics are
+    homogeneous, so tolerances are stated in this unit); 1.0 otherwise."""
+    u = float(np.abs(np.asarray(X, dtype=np.float64)).max()) if np.size(X) \
+        else 1.0
+    return u if (u > 0 and (u < 1e-3 or u > 1e3)) else 1.0
 
 
 def check_result(ctx, X, metric_name, res, prefix, expect_k=None,
@@ -128,7 +161,8 @@ def check_result(ctx, X, metric_name, res, prefix, expect_k=None,
         return False
     D = np.stack([ref(X, np.asarray(c)) for c in centers], axis=1)   # n x K
     own = D[np.arange(len(X)), lab]
-    scale = 1.0 + np.abs(own)
+    u = unit(X)
+    scale = u + np.abs(own)
     w = np.abs(own - dist) > tol * scale
     if np.any(w):
         i = int(np.where(w)[0][0])
@@ -143,7 +177,7 @@ def check_result(ctx, X, metric_name, res, prefix, expect_k=None,
                 i, lab[i], dist[i], int(D[i].argmin()), D[i].min(),
                 int(closer.sum())))
     for k in range(K):
-        if lab[ci[k]] != k or abs(dist[ci[k]]) > tol:
+        if lab[ci[k]] != k or abs(dist[ci[k]]) > tol * u:
             bad('center-own-label', 'center %d (frame %d) has label %d '
                 'distance %.3g' % (k, ci[k], lab[ci[k]], dist[ci[k]]))
             break
